@@ -163,8 +163,32 @@ fn f64_bits_strategy() -> BoxedStrategy<u64> {
     .boxed()
 }
 
+/// a sink that formats another value of the same wrapper while it is being written to (a logger that
+/// decorates what passes through it): formatting is re-entrant
+struct Decorating(String, f64);
+impl std::fmt::Write for Decorating {
+    fn write_str(&mut self, s: &str) -> std::fmt::Result {
+        let inner = format!("{}", HumanFloatCount(self.1));
+        if inner.is_empty() {
+            return Err(std::fmt::Error);
+        }
+        self.0.push_str(s);
+        Ok(())
+    }
+}
+
 fn run_float(c: &FloatCase) -> CaseResult {
     let x = f64::from_bits(c.bits);
+    if c.bits % 16 == 3 {
+        use std::fmt::Write;
+        let r = catch(|| {
+            let mut sink = Decorating(String::new(), x * 0.5);
+            write!(sink, "{}", HumanFloatCount(x)).map(|_| sink.0)
+        })
+        .map_err(|p| Fail::new("panic", format!("HumanFloatCount({x:?}) written to a sink that formats another HumanFloatCount panicked: {p}")))?;
+        let plain = format!("{}", HumanFloatCount(x));
+        ensure!(r.as_deref() == Ok(plain.as_str()), "floatcount", "HumanFloatCount({x:?}) through a re-entrant sink gave {r:?}, plain formatting gives {plain:?}");
+    }
     let got = catch(|| match c.precision {
         Some(p) => format!("{:.*}", p as usize, HumanFloatCount(x)),
         None => format!("{}", HumanFloatCount(x)),
